@@ -12,4 +12,5 @@ LEVEL_NOTE = ("Trusted: Coq kernel, extraction, OCaml driver, Rust harness (incl
 TECHNIQUE = "Coq proof (induction over record lists) of a hand-written Gallina model + history/crash-state differential against the real Database"
 RULE = ("histories with multi-event transactions, failed (half-written, truncated) transactions and crashes that tear the last transaction at every record boundary / inside a record; "
         "then read_transaction, read_event and scans; non-trivial = >=2 appends, one succeeded")
-monitor_e = storelib.monitor_kinds({"RE", "RT", "SS", "SP"}, "atomic")
+ENV = {"LD_PRELOAD": storelib.ensure_svio()}
+monitor_e = storelib.monitor_kinds({"RE", "RT", "SS", "SP"}, "atomic", durable=True)
